@@ -133,6 +133,8 @@ def access_probes():
         out.append((f"acc:batch:{bm}", HDR + f"db.Setting = Batteries.Charge.{bm}\ndb.Mode = Batteries.{bm}.Ratio\ndb.On = Batteries[\"B 1\"].Charge.{bm}\ndb.Open = Batteries[\"B 1\"].{bm}.Power\nx = Batteries[HASH(\"Z\")].{bm}\ndb.Lock = x.Charge + x.Ratio\n"))
     for bm in ["Average", "Sum", "Minimum", "Maximum"]:
         out.append((f"acc:batch_slot:{bm}", HDR + f"db.Setting = ArcFurnaces.Import.Quantity.{bm}\ndb.Mode = ArcFurnaces.slot1.Occupied.{bm}\ndb.On = ArcFurnaces[\"left\"].slot0.Quantity.{bm}\ndb.Open = ArcFurnaces[\"left\"].Export.OccupantHash.{bm}\n"))
+    for bm in ["Average", "Sum", "Minimum", "Maximum"]:
+        out.append((f"acc:batch_handle_store:{bm}", HDR + f"bank = Batteries[\"Bank1\"].{bm}\nx = bank.Charge\nbank.Lock = x > 5\nGrowLights.{bm}.On = d0.Setting\nv = ActiveVents.{bm}\nv.Mode = d1.Setting\n"))
     out.append(("acc:batch_store", HDR + "GrowLights.On = d0.Setting\nGrowLights[\"x\"].On = d1.Setting\nh = HASH(\"y\")\nGrowLights[h].Lock = 1\nv = ActiveVents\nv.Mode = d2.Setting\n"))
     out.append(("acc:slots", HDR + "f = ArcFurnace(d0)\nif f.Import.Occupied:\n    f.Activate = 1\nt = f.slot1.OccupantHash\nf.Export.Quantity = t\ndb.Setting = ArcFurnaces.Import.Quantity.Sum\ndb.Mode = ArcFurnaces.slot1.Occupied.Maximum\nArcFurnaces.Export.Occupied = d1.Setting\n"))
     out.append(("acc:ids", HDR + "h = WallHeater(d2)\ndb.Setting = h.PrefabHash\ndb.Mode = h.ReferenceId\ndb.On = h.NameHash\ndb.Open = WallHeaters.PrefabHash.Maximum\ndb.Lock = d0.PrefabHash + d1.ReferenceId\ndb.Setting = WallHeaters[\"a\"].ReferenceId.Minimum + WallHeaters.NameHash.Sum\n"))
@@ -283,6 +285,7 @@ def construct_probes():
     out.append(("stack:computed", pre + "stack[100 + 1] = a\nstack[a + 100] = b\ndb.Setting = stack[100 + a] + stack[c]\n"))
     out.append(("order:sleep_yield", pre + "db.Setting = 1\nsleep(a)\ndb.Setting = 2\nyield_()\ndb.Mode = b\nsleep(0.5)\nyield_()\ndb.On = 1\n"))
     out.append(("unary:minus", pre + "db.Setting = -a\ndb.Mode = -a * -b\ndb.On = -(-a)\nx = -3\ndb.Open = x - a\ndb.Lock = a - -2\n"))
+    out.append(("unary:plus", pre + "db.Setting = +a\ndb.Mode = 2 * +b\ndb.On = +(a - b)\n"))
     out.append(("cmp:value", pre + "db.Setting = (a > b) + (b > c)\ndb.Mode = (a == b) * 5\nx = a != b\ndb.On = x\n"))
     out.append(("batch:named_write", HDR + "n1 = HASH(\"x\")\nGrowLights[n1].On = d0.Setting\nGrowLights[\"y z\"].Lock = 1\nWallHeaters[\"h\"].On = GrowLights[\"y z\"].On.Maximum\n"))
     out.append(("stmt:pass", pre + "if a:\n    pass\nelse:\n    db.Setting = 1\nfor i in range(2):\n    pass\ndb.Mode = 2\n"))
